@@ -257,7 +257,7 @@ def run_property(pid, spec, tier, seed, work, t0, replay=None, no_prove=False):
 reg("C04", gen=gen_civil.gen_c04, harness_kw={"variant": "ubsan"})   # pure arithmetic: UBSan only (cheap forks)
 reg("C05", gen=gen_civil.gen_c05, harness_kw={"variant": "ubsan"})
 reg("C17", gen=gen_civil.gen_c17, exhaustive={"thorough": True}, harness_kw={"variant": "ubsan"})
-reg("C15", gen=gen_civil.gen_c15_helpers, exhaustive={"quick": True, "thorough": True})
+reg("C15", gen=gen_civil.gen_c15_helpers, exhaustive={"quick": True, "thorough": True}, sched_phase=True)
 reg("C16", gen=gen_posix.gen_c16)
 reg("C01", gen=gen_zone.gen_c01)
 reg("C02", gen=gen_zone.gen_c02)
@@ -493,7 +493,11 @@ def run_c19(pid, spec, tier, seed, work, t0, no_prove):
                  b":B", b"nosuch", b"UTC", b"UTC0", b"Fixed/UTC-03:00:00", b"Fixed/UTC+24:00:00", b"Fixed/UTC+24:00:01", b"file:", b"file:file:B",
                  b"America/New_York", b"B\0junk", b"Zone//A", b"./B", b"file:/nonexistent",
                  # absolute-looking names that exist only relative to TZDIR (must NOT load)
-                 b"file:/Zone/A", b"file:/B", b"/B", b"/Zone/A", b"//B", b"file://B", b"FILE:B", b"file:./B"]
+                 b"file:/Zone/A", b"file:/B", b"/B", b"/Zone/A", b"//B", b"file://B", b"FILE:B", b"file:./B",
+                 # strings of the fixed-offset SHAPE that are not fixed-offset names (a NUL / non-digit in each digit
+                 # position): must go to the file system, fail, and leave UTC
+                 b"Fixed/UTC+1\0:11:11", b"Fixed/UTC+\x001:11:11", b"Fixed/UTC+11:1\0:11", b"Fixed/UTC+11:11:1\0",
+                 b"Fixed/UTC+11:\x001:11", b"Fixed/UTC+1a:00:00", b"Fixed/UTC+01:00:00x", b"Fixed/UTC+01:00:0"]
         drv, dlog = C.build_driver()
         har, hlog = C.build_harness(variant="plain", harness_src="env_harness.cc")
         if drv is None or har is None:
